@@ -19,6 +19,9 @@
  *   s4         = from the fresh state and two primed states: every TOC byte followed by EVERY string of 3 (quick: 4 as well from the fresh 48 kHz state; thorough 3..5 everywhere)
  *                bytes over the 8-value structural alphabet {00,01,02,41,7F,80,FC,FF} (frame counts, VBR / padding flags, length
  *                bytes at the 251/252 boundary, range-coder extremes), float decode + 16/24-bit FEC decode, inspection functions
+ *   fill       = from the fresh state: TOC x EVERY two-byte payload prefix (65 536) followed by a run of one range-coder extreme byte
+ *                (FF: every later symbol falls into the LAST interval of its distribution - Laplace tails, largest PVQ / pitch /
+ *                gain indices; 00: the first interval; thorough also 7F / 80) - float decode, finiteness and count clauses
  * Stages run in this order (a wall-clock deadline cuts from the end). Item numbers are fixed per stage, so a replay of an item
  * re-runs only the BFS levels it depends on.
  * Oracle (statement only): ASan-clean on exact-size heap blocks (packet copy without slack, PCM block of exactly
@@ -281,6 +284,17 @@ static void s4_item(long it,void *vctx){
    }
 }
 
+/* TOC x every two-byte prefix x extreme-byte run; item = (cfg slot, toc index, fill index, b1) */
+static int FCFG[3], nFC; static unsigned char FTOC[64]; static int nFT, nFILL, nFLEN; static const unsigned char FILLV[4]={0xFF,0x00,0x7F,0x80}; static const int FLEN[2]={41,160};
+static void fill_item(long it,void *vctx){
+   int b1=(int)(it&255), fi=(int)((it>>8)%nFILL), ti=(int)((it>>8)/nFILL%nFT), k=(int)((it>>8)/nFILL/nFT), b2,li; const cfg_t *c=&CF[FCFG[k]]; char ctx[64]; (void)vctx;
+   need_work(c->sz);
+   for(li=0;li<nFLEN;li++){ int len=FLEN[li]; unsigned char *blk=malloc(len); memset(blk,FILLV[fi],len); blk[0]=FTOC[ti]; blk[1]=(unsigned char)b1;
+      snprintf(ctx,sizeof ctx,"fresh; fill=%02x from byte 3",FILLV[fi]);
+      for(b2=0;b2<256;b2++){ blk[2]=(unsigned char)b2; memcpy(g_work,c->fresh,c->sz); run_decode(c,g_work,ctx,2,blk,len,48*c->F25,0); }
+      free(blk); }
+}
+
 /* ------------------------------------------------------------------ alphabet construction */
 static int find_pkt(const char *name,int pos){ int s; for(s=0;s<C.ns;s++) if(!strcmp(C.s[s].name,name)){ if(pos<C.s[s].n) return C.s[s].first+pos; } fprintf(stderr,"c01: corpus stream '%s' pos %d missing\n",name,pos); exit(2); }
 static void add_op(cfg_t *c,int kind,int fs,int fec,int arg,const cpkt *b,const unsigned char *raw,int rawlen,const char *tagfmt,...){
@@ -354,7 +368,7 @@ int main(int argc,char **argv){
    static const int RATES[5]={48000,16000,8000,24000,12000}; int i,d,hstride,lbstride,do_s3; long n,skipped=0; mc_ctr *st,*dn,*cls,*lvl[5];
    mc_init(argc,argv,"C01","ss");
    g_replay=MC.only_item; exact_init();
-   g_depth=(int)mc_arg("--depth",MC.tier?3:2); hstride=(int)mc_arg("--hstride",MC.tier?2:1); lbstride=(int)mc_arg("--lbstride",MC.tier?6:12); g_classkey=(int)mc_arg("--classkey",MC.tier?0:1); do_s3=(int)mc_arg("--s3",MC.tier?1:0); int stages=(int)mc_arg("--stages",31); g_s4max=(int)mc_arg("--s4max",MC.tier?5:4);
+   g_depth=(int)mc_arg("--depth",MC.tier?3:2); hstride=(int)mc_arg("--hstride",MC.tier?2:1); lbstride=(int)mc_arg("--lbstride",MC.tier?6:12); g_classkey=(int)mc_arg("--classkey",MC.tier?0:1); do_s3=(int)mc_arg("--s3",MC.tier?1:0); int stages=(int)mc_arg("--stages",63); g_s4max=(int)mc_arg("--s4max",MC.tier?5:4);
    c_trans=mc_counter("transitions"); c_eval=mc_counter("evaluations"); c_decoded=mc_counter("calls_returning_samples"); c_rejected=mc_counter("calls_returning_error"); c_insp=mc_counter("inspection_calls");
    c_valid=mc_counter("valid_framing_clause_checked"); c_adv_lastdur=mc_counter("advisory_last_duration_differs"); c_adv_plc=mc_counter("advisory_plc_count_not_exact"); c_bfs_trans=mc_counter("bfs_transitions");
    st=mc_counter("states"); dn=mc_counter("distinct_nontrivial"); cls=mc_counter("state_classes");
@@ -382,8 +396,12 @@ int main(int argc,char **argv){
    /* fixed item ranges for the stages that do not depend on the BFS (cheap replays), then the data-dependent ones */
    if (do_s3){ S3CFG[nS3++]=0; for(i=0;i<ncfg;i++) if(CF[i].Fs==16000&&CF[i].ch==1){ S3CFG[nS3++]=i; break; } }
    S4CFG[nS4++]=0; for(i=0;i<ncfg;i++) if(CF[i].Fs==16000&&CF[i].ch==1){ S4CFG[nS4++]=i; break; } for(i=0;i<ncfg;i++) if(CF[i].Fs==8000&&CF[i].ch==2){ S4CFG[nS4++]=i; break; }
+   { static const unsigned char qt[14]={0x08,0x48,0x58,0x4C,0x68,0x78,0x7C,0x80,0x98,0xB8,0xD8,0xE0,0xF8,0xFC}; int t;
+     if (MC.tier){ for(t=0;t<64;t++) FTOC[nFT++]=(unsigned char)(t<<2); nFILL=4; nFLEN=2; FCFG[nFC++]=0; for(i=0;i<ncfg;i++) if(CF[i].Fs==16000&&CF[i].ch==1){ FCFG[nFC++]=i; break; } }
+     else { for(t=0;t<14;t++) FTOC[nFT++]=qt[t]; nFILL=2; nFLEN=1; FCFG[nFC++]=0; } }
+   long n_fill=(long)nFC*nFT*nFILL*256, b_fill;
    long n_probe=ncfg, n_clo=(long)ncfg*nB12*CL_SLICES, n_small=(long)ncfg*8*256, n_s3=(long)nS3*65536, n_s4=(long)nS4*3*256;
-   long b_probe=stage_reserve(n_probe), b_lbrr=stage_reserve(1), b_clo=stage_reserve(n_clo), b_small=stage_reserve(n_small), b_s3=stage_reserve(n_s3), b_s4=stage_reserve(n_s4);
+   long b_probe=stage_reserve(n_probe), b_lbrr=stage_reserve(1), b_clo=stage_reserve(n_clo), b_small=stage_reserve(n_small), b_s3=stage_reserve(n_s3), b_s4=stage_reserve(n_s4); b_fill=stage_reserve(n_fill);
    g_t=now_s();
    /* ---------------- stage 1: BFS on full-image hashes */
    for(i=0;i<ncfg;i++){ uint64_t h=h_root(i); htab_put(T_states,mc_hash(CF[i].fresh,CF[i].sz,0xC01000+i),h); htab_put(T_classes,class_key(&CF[i],(OpusDecoder*)CF[i].fresh,i),h); }
@@ -398,6 +416,7 @@ int main(int argc,char **argv){
    if(stages&2) stage_par_at(b_small,n_small,small_item,NULL,0); stage_info("small",(long)ncfg*8*256);
    if (do_s3){ stage_par_at(b_s3,n_s3,s3_item,NULL,0); stage_info("s3",(long)nS3*65536); }
    if(stages&16){ stage_par_at(b_s4,n_s4,s4_item,NULL,0); stage_info("s4",n_s4); }
+   if(stages&32){ stage_par_at(b_fill,n_fill,fill_item,NULL,0); stage_info("fill",n_fill); }
    n=__atomic_load_n(&T_states->count,__ATOMIC_RELAXED);
    *st=n+mc_set_count(lastlevel); *dn=mc_set_count(obs);
    return mc_finish();
